@@ -80,12 +80,52 @@ Proof.
     exists r. split; [right; exact H1|exact H2].
 Qed.
 
+(* the number of shape copies in the cell: every occupied site contributes one copy per symmetry operation *)
+Definition copies (st : pstateR) : nat := length (relative_positions NumR st).
+
+Lemma flat_map_length_const {A B} (f : A -> list B) (l : list A) (n : nat) :
+  (forall x, In x l -> length (f x) = n) -> length (flat_map f l) = (length l * n)%nat.
+Proof.
+  induction l as [|x l IH]; intros H; [reflexivity|].
+  cbn [flat_map length]. rewrite app_length, (H x (or_introl eq_refl)), IH; [lia|].
+  intros y Hy. apply H. now right.
+Qed.
+
+Theorem copies_count (st : pstateR) :
+  copies st = (length (p_sites NumR st) * length (p_syms NumR st))%nat.
+Proof.
+  unfold copies, relative_positions. apply flat_map_length_const.
+  intros s _. apply positions_length.
+Qed.
+
+Theorem copies_total_shapes (st : pstateR) : total_shapes NumR st = Z.of_nat (copies st).
+Proof. unfold total_shapes. now rewrite copies_count. Qed.
+
+(* the command line's states occupy one site: one copy per symmetry operation *)
+Theorem copies_single_site (st : pstateR) (s : siteR) :
+  p_sites NumR st = [s] -> copies st = length (p_syms NumR st)
+  /\ relative_positions NumR st = positions NumR (p_syms NumR st) s.
+Proof.
+  intros E. unfold copies, relative_positions. rewrite E. cbn [flat_map]. rewrite app_nil_r.
+  split; [apply positions_length|reflexivity].
+Qed.
+
+(* every copy is the placement of one occupied site by one symmetry operation *)
+Lemma rel_members (st : pstateR) (p : tfR) :
+  In p (relative_positions NumR st) ->
+  exists sym s, In sym (p_syms NumR st) /\ In s (p_sites NumR st) /\ p = placement sym s.
+Proof.
+  unfold relative_positions. intros H. apply in_flat_map in H. destruct H as (s & Hs & Hp).
+  rewrite positions_map in Hp. apply in_map_iff in Hp. destruct Hp as (sym & <- & Hsym).
+  exists sym, s. auto.
+Qed.
+
 Section State.
   Variable st : pstateR.
   Let syms := p_syms NumR st.
-  Let N := length syms.
   Let cl := p_cell NumR st.
   Let rel := relative_positions NumR st.
+  Let N := copies st.
   Let cart := cartesian_positions NumR st.
   Let S (t : tfR) := shape_transform NumR t (p_shape NumR st).
   Let k := shells_of NumR st.
@@ -99,7 +139,7 @@ Section State.
     norm2 NumR (x1 - x2) (y1 - y2).
 
   Lemma rel_length : length rel = N.
-  Proof. unfold rel, relative_positions. apply positions_length. Qed.
+  Proof. reflexivity. Qed.
   Lemma cart_length : length cart = N.
   Proof. unfold cart, cartesian_positions. rewrite map_length. apply rel_length. Qed.
 
@@ -175,14 +215,15 @@ Record wf_state (st : pstateR) : Prop := {
   wf_radius : 0 <= p_radius NumR st;
 }.
 
-Lemma nth_rel_spec (st : pstateR) j : wf_state st -> (j < length (p_syms NumR st))%nat ->
+Lemma nth_rel_spec (st : pstateR) j : wf_state st -> (j < copies st)%nat ->
   let p := nth j (relative_positions NumR st) (dflt) in
   affine_row p /\ -1/2 <= a02 NumR p < 1/2 /\ -1/2 <= a12 NumR p < 1/2.
 Proof.
-  intros Hwf Hj. cbv zeta. unfold relative_positions. rewrite positions_nth by exact Hj.
-  assert (Hrow : sym_row (nth j (p_syms NumR st) dflt)).
-  { destruct Hwf as [Hs _ _ _ _ _]. rewrite Forall_forall in Hs. apply Hs. now apply nth_In. }
-  destruct (placement_spec _ (p_site NumR st) Hrow) as (_ & _ & _ & _ & E02 & E12 & (R0 & R1 & R2')).
+  intros Hwf Hj. cbv zeta.
+  destruct (rel_members st _ (nth_In _ dflt Hj)) as (sym & s & Hsym & Hs & E). rewrite E.
+  assert (Hrow : sym_row sym).
+  { destruct Hwf as [Hs' _ _ _ _ _]. rewrite Forall_forall in Hs'. now apply Hs'. }
+  destruct (placement_spec _ s Hrow) as (_ & _ & _ & _ & E02 & E12 & (R0 & R1 & R2')).
   split; [repeat split; auto|].
   rewrite E02, E12. split; apply wrap_spec.
 Qed.
@@ -242,7 +283,7 @@ Qed.
 (* C01: the scored state has no undetected pair ANYWHERE in the tiling *)
 Theorem scored_packing_all_pairs_checked (st : pstateR) :
   wf_state st -> packed_score NumR st <> None ->
-  forall i j (n m : Z), (i < length (p_syms NumR st))%nat -> (j < length (p_syms NumR st))%nat ->
+  forall i j (n m : Z), (i < copies st)%nat -> (j < copies st)%nat ->
   ~ (i = j /\ n = 0%Z /\ m = 0%Z) ->
   sq NumR (nmul (p_radius NumR st) (n2 (NN:=NumR))) < centre_dist2 (copy st i) (image st j n m)
   \/ shape_intersects NumR (shape_transform NumR (copy st i) (p_shape NumR st))
@@ -382,7 +423,7 @@ Qed.
 (* orthogonality of a symmetry operation's linear part, and of the site rotation *)
 Definition rigid_inputs (st : pstateR) : Prop :=
   Forall rigid (p_syms NumR st)
-  /\ s_cos NumR (p_site NumR st) * s_cos NumR (p_site NumR st) + s_sin NumR (p_site NumR st) * s_sin NumR (p_site NumR st) = 1.
+  /\ Forall (fun s => s_cos NumR s * s_cos NumR s + s_sin NumR s * s_sin NumR s = 1) (p_sites NumR st).
 
 Lemma placement_rigid (sym : tfR) (s : siteR) :
   sym_row sym -> rigid sym -> s_cos NumR s * s_cos NumR s + s_sin NumR s * s_sin NumR s = 1 ->
@@ -405,23 +446,30 @@ Proof.
     rewrite R1, R2, R3. lra.
 Qed.
 
+(* every copy of a well-formed state with rigid inputs is an affine, rigid placement *)
+Lemma rel_rigid (st : pstateR) q : wf_state st -> rigid_inputs st -> (q < copies st)%nat ->
+  affine_row (nth q (relative_positions NumR st) dflt) /\ rigid (nth q (relative_positions NumR st) dflt).
+Proof.
+  intros Hwf [Hrig Hcs] Hq. split; [apply (nth_rel_spec st q Hwf Hq)|].
+  destruct (rel_members st _ (nth_In _ dflt Hq)) as (sym & s & Hsym & Hs & E). rewrite E.
+  destruct Hwf as [Hs' _ _ _ _ _]. rewrite Forall_forall in Hs', Hrig, Hcs.
+  apply placement_rigid; [now apply Hs'|now apply Hrig|now apply Hcs].
+Qed.
+
 (* C01 for circle and trimer shapes, as a statement about the plane: if the state is scored, no point
    is interior to copy i and to copy j translated by n A + m B, for all i, j and ALL (n, m) in Z^2 *)
 Theorem scored_disc_packing_has_no_overlap (st : pstateR) (l : list discR) :
   wf_state st -> rigid_inputs st -> p_shape NumR st = Mol l -> enclosed (p_radius NumR st) l ->
   packed_score NumR st <> None ->
-  forall i j (n m : Z), (i < length (p_syms NumR st))%nat -> (j < length (p_syms NumR st))%nat ->
+  forall i j (n m : Z), (i < copies st)%nat -> (j < copies st)%nat ->
   ~ (i = j /\ n = 0%Z /\ m = 0%Z) ->
   forall p : R * R, ~ (in_mol (placed_mol (copy st i) l) p /\ in_mol (placed_mol (image st j n m) l) p).
 Proof.
-  intros Hwf [Hrig Hcs] Hshape Henc Hscore i j n m Hi Hj Hne p.
+  intros Hwf Hri Hshape Henc Hscore i j n m Hi Hj Hne p.
   (* the two placements are affine and rigid *)
-  assert (Hpl : forall q, (q < length (p_syms NumR st))%nat ->
-            affine_row (nth q (relative_positions NumR st) dflt) /\ rigid (nth q (relative_positions NumR st) dflt)).
-  { intros q Hq. split; [apply (nth_rel_spec st q Hwf Hq)|].
-    unfold relative_positions. rewrite positions_nth by exact Hq.
-    destruct Hwf as [Hs _ _ _ _ _]. rewrite Forall_forall in Hs, Hrig.
-    apply placement_rigid; [apply Hs|apply Hrig|exact Hcs]; now apply nth_In. }
+  assert (Hpl : forall q, (q < copies st)%nat ->
+            affine_row (nth q (relative_positions NumR st) dflt) /\ rigid (nth q (relative_positions NumR st) dflt))
+    by (intros q Hq; now apply rel_rigid).
   destruct (Hpl i Hi) as [Ai Gi]. destruct (Hpl j Hj) as [Aj Gj].
   assert (Ac : affine_row (copy st i) /\ rigid (copy st i)).
   { rewrite (copy_is_cart st i Hi). split; [exact Ai|exact Gi]. }
